@@ -11,3 +11,9 @@ package config
 
 //@ func (a *defaultAccounter) Handle(response tq.Response, request tq.Request)
 //@   implements tq.Handler.Handle
+
+//@ func (c *Command) TrimSpace()
+//@   requires c != nil
+//@   modifies c.Name, c.Match[..]
+//@   ensures len(c.Match) == old(len(c.Match))
+//@   loop 1 invariant -1 <= rangeindex && rangeindex < len(c.Match)
